@@ -388,3 +388,184 @@ func init() {
 			return out
 		}})
 }
+
+// LEVELIDX — the prime selected from a levelled ring is selected with that ring's own level.
+//
+// `ringQ := params.RingQ().AtLevel(L)` followed by `ringQ.SubRings[E]` (or ModulusAtLevel[E]) picks the prime the
+// rescaling divides by, or the modulus a scale is reduced with. Both L and E are resolved, through single-definition
+// locals, to the operand levels they are computed from (`op0.Level()`, `opOut.Level()`, ...). When both resolve and E
+// draws on an operand level that L does not, the index is taken from another ciphertext than the ring: the two agree
+// only when the operands happen to be at the same level.
+func scanLevelIdx(c *core.Ctx) []ob {
+	var out []ob
+	n := 0
+	c.FuncDecls(func(pk *packages.Package, file *ast.File, fd *ast.FuncDecl) {
+		if fd.Body == nil || fileIsTestSupport(c.Program, fd.Pos()) || inExamples(pk) {
+			return
+		}
+		info := pk.TypesInfo
+		fkey := core.FuncKey(pk, fd)
+		defs := map[types.Object][]ast.Expr{}
+		ast.Inspect(fd.Body, func(x ast.Node) bool {
+			if as, ok := x.(*ast.AssignStmt); ok {
+				for i, l := range as.Lhs {
+					if id, ok := unparen(l).(*ast.Ident); ok {
+						o := info.Defs[id]
+						if o == nil {
+							o = info.Uses[id]
+						}
+						if o == nil {
+							continue
+						}
+						if len(as.Lhs) == len(as.Rhs) {
+							defs[o] = append(defs[o], as.Rhs[i])
+						} else {
+							defs[o] = append(defs[o], nil)
+						}
+					}
+				}
+			}
+			return true
+		})
+		// sources(e): the set of "<x>.Level()" texts e is computed from; ok=false if something does not resolve
+		var sources func(e ast.Expr, depth int) (map[string]bool, bool)
+		sources = func(e ast.Expr, depth int) (map[string]bool, bool) {
+			res := map[string]bool{}
+			ok := true
+			if depth > 5 {
+				return res, false
+			}
+			var walk func(x ast.Expr)
+			walk = func(x ast.Expr) {
+				switch y := unparen(x).(type) {
+				case *ast.BasicLit:
+				case *ast.BinaryExpr:
+					walk(y.X)
+					walk(y.Y)
+				case *ast.CallExpr:
+					if sel, isSel := unparen(y.Fun).(*ast.SelectorExpr); isSel && sel.Sel.Name == "Level" && len(y.Args) == 0 {
+						res[exprString(sel.X)+".Level()"] = true
+						return
+					}
+					if nm := calleeName(info, y); nm == "Min" || nm == "Max" {
+						for _, a := range y.Args {
+							walk(a)
+						}
+						return
+					}
+					ok = false
+				case *ast.Ident:
+					o := info.Uses[y]
+					if o == nil {
+						ok = false
+						return
+					}
+					ds := defs[o]
+					if len(ds) != 1 || ds[0] == nil {
+						// loop counters and parameters carry no operand level
+						if _, isVar := o.(*types.Var); isVar && len(ds) == 0 {
+							res["param:"+y.Name] = true
+							return
+						}
+						if len(ds) > 1 {
+							// a counter (i := 0; i++) contributes nothing when all its definitions are literal-based
+							return
+						}
+						ok = false
+						return
+					}
+					sub, sok := sources(ds[0], depth+1)
+					if !sok {
+						ok = false
+					}
+					for k := range sub {
+						res[k] = true
+					}
+				default:
+					ok = false
+				}
+			}
+			walk(e)
+			return res, ok
+		}
+		ord := 0
+		ast.Inspect(fd.Body, func(x ast.Node) bool {
+			ix, isIx := x.(*ast.IndexExpr)
+			if !isIx {
+				return true
+			}
+			sel, isSel := unparen(ix.X).(*ast.SelectorExpr)
+			if !isSel || (sel.Sel.Name != "SubRings" && sel.Sel.Name != "ModulusAtLevel") {
+				return true
+			}
+			rid, isId := unparen(sel.X).(*ast.Ident)
+			if !isId {
+				return true
+			}
+			ds := defs[info.Uses[rid]]
+			if len(ds) != 1 || ds[0] == nil {
+				return true
+			}
+			// the ring is defined as ....AtLevel(L)
+			var L ast.Expr
+			ast.Inspect(ds[0], func(y ast.Node) bool {
+				if call, ok := y.(*ast.CallExpr); ok && len(call.Args) >= 1 {
+					if s2, ok := unparen(call.Fun).(*ast.SelectorExpr); ok && s2.Sel.Name == "AtLevel" && L == nil {
+						L = call.Args[0]
+					}
+				}
+				return true
+			})
+			if L == nil {
+				return true
+			}
+			sl, okL := sources(L, 0)
+			se, okE := sources(ix.Index, 0)
+			ord++
+			n++
+			key := fmt.Sprintf("LEVELIDX:%s#%s[%s]", fkey, exprString(ix.X), exprString(ix.Index))
+			props := metaProps(fkey)
+			if !okL || !okE {
+				out = append(out, withProps(okOb("LEVELIDX", key, c.Rel(ix.Pos()), "index or ring level not resolvable to operand levels: nothing to compare", false), props...))
+				return true
+			}
+			var foreign []string
+			for k := range se {
+				if strings.HasSuffix(k, ".Level()") && !sl[k] {
+					foreign = append(foreign, k)
+				}
+			}
+			hasOperandLevel := false
+			for k := range sl {
+				if strings.HasSuffix(k, ".Level()") {
+					hasOperandLevel = true
+				}
+			}
+			if len(foreign) > 0 && hasOperandLevel {
+				sort.Strings(foreign)
+				out = append(out, withProps(violOb("LEVELIDX", key, c.Rel(ix.Pos()), fmt.Sprintf("%s indexes %s, a ring cut at level %s, with %s which is computed from %s: the selected prime is the one of another operand's level and differs whenever the operands are not at the same level", fkey, exprString(ix.X), exprString(L), exprString(ix.Index), strings.Join(foreign, ", "))), props...))
+			} else {
+				out = append(out, withProps(okOb("LEVELIDX", key, c.Rel(ix.Pos()), "the index is computed from the level the ring was cut at", true), props...))
+			}
+			return true
+		})
+	})
+	c.Stats["levelidx_sites"] = n
+	return out
+}
+
+func init() {
+	all := []string{"C04", "C05", "C06", "C11", "C12", "C13", "C20"}
+	core.Register(&core.Rule{Name: "LEVELIDX", Props: all,
+		Doc: "an index into SubRings/ModulusAtLevel of a ring cut with AtLevel(L) is computed from the same operand level(s) as L (resolved through single-definition locals)",
+		Run: func(c *core.Ctx) []ob {
+			out := scanLevelIdx(c)
+			for _, o := range core.Floor("LEVELIDX", nil, "level-indexed primes of a levelled ring", c.Stats["levelidx_sites"], 8) {
+				out = append(out, withProps(o, all...))
+			}
+			for _, o := range control(c, "LEVELIDX", scanLevelIdx, "(fixEvaluator).DropScale") {
+				out = append(out, withProps(o, all...))
+			}
+			return out
+		}})
+}
